@@ -58,7 +58,10 @@ type Verifier struct {
 	localNames       map[*Object]string
 	writeLog         map[*Object]bool
 	ringUsed         map[string]bool
+	steps, maxSteps  int
 	globals          map[*ssa.Global]*Object
+	sentinels        map[*ssa.Global]*Object
+	sentinelVal      map[*ssa.Global]Value
 	globalInit       map[*ssa.Global]Value
 	methodCache      map[*ssa.Package][]*ssa.Function
 	ringFacts        map[string]bool
@@ -99,9 +102,11 @@ func (v *Verifier) pos(p token.Pos) string {
 func (v *Verifier) Load(repo string, tags string, patterns ...string) error {
 	v.tags = tags
 	cfg := &packages.Config{Mode: packages.LoadAllSyntax, Dir: repo, Env: append(os.Environ(), "GOFLAGS=-mod=mod", "GOPROXY=off", "GOSUMDB=off", "GOTOOLCHAIN=local")}
+	bt := "verif"
 	if tags != "" {
-		cfg.BuildFlags = []string{"-tags=" + tags}
+		bt += "," + tags
 	}
+	cfg.BuildFlags = []string{"-tags=" + bt}
 	pkgs, err := packages.Load(cfg, patterns...)
 	if err != nil {
 		return err
@@ -248,6 +253,9 @@ func (v *Verifier) globalPtr(st *State, g *ssa.Global) Value {
 	if o, ok := v.globalObj(st, g); ok {
 		return &PtrV{Obj: o}
 	}
+	if o, ok := v.sentinelGlobal(st, g); ok {
+		return &PtrV{Obj: o}
+	}
 	unsup("package-level variable %s", g.Name())
 	return nil
 }
@@ -330,6 +338,85 @@ func (v *Verifier) globalObj(st *State, g *ssa.Global) (*Object, bool) {
 	st.mem[o] = val
 	v.assume("package-level variable " + g.Pkg.Pkg.Name() + "." + g.Name() + " holds its initialiser's constant value (only the package initialiser stores to it: checked syntactically; functions that receive its address are verified against their modifies clauses)")
 	return o, true
+}
+
+// sentinelGlobal models a package-level variable of interface type (sentinel errors such as
+// errInvalidEncoding) or of an empty struct type: a fixed non-nil symbolic value, provided that only the
+// package initialiser stores to it.
+func (v *Verifier) sentinelGlobal(st *State, g *ssa.Global) (*Object, bool) {
+	if o, ok := v.sentinels[g]; ok {
+		if o == nil {
+			return nil, false
+		}
+		if _, live := st.mem[o]; !live {
+			st.mem[o] = v.sentinelVal[g]
+		}
+		return o, true
+	}
+	v.sentinels[g] = nil
+	t := g.Type().Underlying().(*types.Pointer).Elem()
+	var val Value
+	switch u := t.Underlying().(type) {
+	case *types.Interface:
+		if g.Pkg == nil {
+			return nil, false
+		}
+		if v.globalWrittenOutsideInit(g) {
+			return nil, false
+		}
+		e := v.F.Var("glob!"+g.Pkg.Pkg.Name()+"."+g.Name(), mkSort("Iface"))
+		v.initFacts = append(v.initFacts, v.F.Not(v.F.Eq(e, v.nilIface())))
+		val = &IfaceV{V: e}
+		v.assume("package-level error value " + g.Pkg.Pkg.Name() + "." + g.Name() + " is a fixed non-nil value (only the package initialiser stores to it: checked syntactically)")
+	case *types.Struct:
+		if u.NumFields() != 0 {
+			return nil, false
+		}
+		val = &AggV{}
+	default:
+		return nil, false
+	}
+	o := v.newObject(g.Name(), t, true)
+	o.Global = true
+	v.sentinels[g] = o
+	v.sentinelVal[g] = val
+	st.mem[o] = val
+	return o, true
+}
+
+func (v *Verifier) globalWrittenOutsideInit(g *ssa.Global) bool {
+	pkg := g.Pkg
+	check := func(f *ssa.Function) bool {
+		isInit := f.Name() == "init" && f.Synthetic != ""
+		for _, b := range f.Blocks {
+			for _, ins := range b.Instrs {
+				if s, ok := ins.(*ssa.Store); ok {
+					if base, _, _ := globalPath(s.Addr); base == g && !isInit {
+						return true
+					}
+				}
+			}
+		}
+		return false
+	}
+	for _, m := range pkg.Members {
+		if fn, ok := m.(*ssa.Function); ok {
+			if check(fn) {
+				return true
+			}
+			for _, a := range fn.AnonFuncs {
+				if check(a) {
+					return true
+				}
+			}
+		}
+	}
+	for _, f := range v.pkgMethods(pkg) {
+		if check(f) {
+			return true
+		}
+	}
+	return false
 }
 
 func (v *Verifier) tryZero(t types.Type) (val Value, ok bool) {
